@@ -443,6 +443,21 @@ def _keys_values_job(ctype):
                                                 f'get_or_compute called the computer {n[0]} time(s)', {'kind': 'keys', 'ctype': ctype}))
             elif not same(g, v) or not same(r, v):
                 res.violations.append(Violation(f'{ctype} cache: stored value does not round-trip', f'key {key!r} in {where}: stored {_show(v)}, get -> {_show(g)}, get_or_compute -> {_show(r)}', {'kind': 'keys', 'ctype': ctype}))
+        # a returned value is the caller's: a later forced write of the entry must not change it (also for large arrays)
+        if ctype == 'numpy':
+            big1 = np.arange(1_200_000, dtype=np.float64)          # > 8 MiB on disk
+            big2 = big1[::-1].copy()
+            cb = make_cache(ctype, d)
+            cb.get_or_compute('big', lambda: big1)
+            held = make_cache(ctype, d).get('big')
+            held2 = make_cache(ctype, d).get_or_compute('big', lambda: big2)
+            make_cache(ctype, d).get_or_compute('big', lambda: big2, force=True)
+            res.add('evaluations', 3)
+            if not same(held, big1) or not same(held2, big1):
+                res.violations.append(Violation(f'{ctype} cache: a value returned earlier changed when the entry was rewritten', 'array of 1.2e6 float64: value held by a reader differs after a forced write',
+                                                {'kind': 'keys', 'ctype': ctype}))
+            if not same(make_cache(ctype, d).get('big'), big2):
+                res.violations.append(Violation(f'{ctype} cache: stored value does not round-trip', 'large array after forced rewrite', {'kind': 'keys', 'ctype': ctype}))
         # every value of the domain
         for vi, v in enumerate(vals):
             if ctype == 'json_nonone' and v is None:
